@@ -90,6 +90,15 @@ fn one_pair<CS: BbsCiphersuite>(
         }
     }
     let pb = proof.to_bytes();
+    // the proof octets as a slice that starts 1..=7 octets into a buffer
+    {
+        let off = 1 + (c.seed as usize + di.len()) % 7;
+        let frame = [&vec![0x5Au8; off][..], &pb[..]].concat();
+        match PoKSignature::<BBSplus<CS>>::from_bytes(&frame[off..]) {
+            Ok(p2) if p2 == proof => {}
+            _ => return rep.fail(ck, "blind-proof-roundtrip:unaligned-slice", format!("the proof octets decode differently (or not at all) from a slice that starts {} octets into a buffer", off), cj()),
+        }
+    }
     match PoKSignature::<BBSplus<CS>>::from_bytes(&pb) {
         Ok(p2) => {
             if p2 != proof {
@@ -152,7 +161,15 @@ fn check_one<CS: BbsCiphersuite>(rep: &Report, ck: &str, c: &Case) -> CheckResul
     }
     let msgs_arg: Option<&[Vec<u8>]> = if l == 0 && c.seed % 3 == 0 { None } else { Some(&msgs) };
     interject(1);
-    let bsig = match BlindSignature::<BBSplus<CS>>::blind_sign(sk, pk, Some(&cb), hdr, msgs_arg) {
+    // every second case: the commitment octets reach the signer as a slice that starts 1..=7 octets into a buffer
+    // (behind a tag or a length prefix), not as a freshly allocated vector
+    let off = if c.seed % 2 == 0 { 1 + (c.seed as usize >> 1) % 7 } else { 0 };
+    let frame = [&vec![0xA5u8; off][..], &cb[..]].concat();
+    let cb_view: &[u8] = &frame[off..];
+    if off > 0 {
+        rep.class("commitment-handed-over-as-an-unaligned-slice");
+    }
+    let bsig = match BlindSignature::<BBSplus<CS>>::blind_sign(sk, pk, Some(cb_view), hdr, msgs_arg) {
         Ok(s) => s,
         Err(e) => return rep.fail(ck, "blind-sign-failed", format!("blind_sign over an honest commitment: {:?}", e), cj()),
     };
@@ -377,7 +394,7 @@ pub fn run(ctx: &Ctx, rep: &Report) -> Meta {
     run_cases(ctx, rep, "random-shapes", ctx.tier.pick(64, 600), 100, || strat(tier), |c| check(rep, "random-shapes", c));
     Meta {
         rule: "prover-burst: all workers issue 1200 (quick) / 8000 (thorough) commits each at once, every fourth followed by proof_gen, every eighth by blind_sign + verify_blind_sign + blind_proof_gen, all of which must succeed; suite x key x header x ph x committed messages (M >= 0) x signer messages (L >= 0): commit, blind_sign over the commitment octets, verify_blind_sign, \
-               octet round trips of commitment / signature / blind factor, issuance without commitment (None and empty spelling), then blind_proof_gen + blind_proof_verify for ALL 2^L x 2^M disclosure pairs \
+               octet round trips of commitment / signature / blind factor, commitment and proof octets also handed over as slices that start 1..=7 octets into a buffer, issuance without commitment (None and empty spelling), then blind_proof_gen + blind_proof_verify for ALL 2^L x 2^M disclosure pairs \
                (L, M <= 3 quick / 4 thorough, both suites) and class-sampled pairs for larger shapes incl. L+1+M > 16; shapes (k,0), (0,k), (k,k/2+1), (k mod 5,k) for every k up to 40 / 130, every total length L + 1 + M up to 100 / 270 (one split each), fixed shapes under contention, in two cases of three every step of the issuance, and for half of the pairs proof generation or verification, is preceded by a call the library refuses (17 kinds: key generation with short key material / long tags, garbage octets into the decoders, a commitment of 0xc0 octets into blind_sign, verification / proof generation / update with other headers, positions out of range, lists too short, a tag of 256 octets into hash_to_scalar), half of the cases after a warm-up history; oracle: every step Ok, decoded objects equal, proof length 272 + 32*U; \
                non-trivial = a disclosure pair executed on a shape; evaluations = verifications"
             .into(),
